@@ -1,6 +1,6 @@
 (* C11 — proofs *)
 From Coq Require Import List Ascii Bool ZArith Lia Reals Lra.
-From PyQMC Require Import gen.Ewald2d_Gen C11.Model.
+From PyQMC Require Import base.Einsum gen.Ewald2d_Gen C11.Model.
 Import ListNotations.
 
 (* ---- weights regenerated from ewald2d.py ---- *)
@@ -33,60 +33,6 @@ Qed.
 Close Scope R_scope.
 
 (* ---- typed contractions ---- *)
-Lemma axis_eqb_eq a b : axis_eqb a b = true -> a = b.
-Proof. destruct a, b; cbn; intros H; try reflexivity; discriminate H. Qed.
-
-(* a binding extends another one *)
-Definition extends (m' m : binding) : Prop := forall c a, lookup c m = Some a -> lookup c m' = Some a.
-Lemma extends_refl m : extends m m. Proof. intros c a H; exact H. Qed.
-Lemma extends_trans m1 m2 m3 : extends m1 m2 -> extends m2 m3 -> extends m1 m3.
-Proof. intros H1 H2 c a H. apply H1, H2, H. Qed.
-Lemma extends_cons c a m : lookup c m = None -> extends ((c, a) :: m) m.
-Proof.
-  intros Hn c' a' H. cbn. destruct (Ascii.eqb_spec c' c) as [->|]; [rewrite Hn in H; discriminate H|exact H].
-Qed.
-
-Lemma bind_operand_sound letters : forall axes m m', bind_operand letters axes m = Some m' ->
-  extends m' m /\ length letters = length axes /\
-  (forall i c a, nth_error letters i = Some c -> nth_error axes i = Some a -> lookup c m' = Some a).
-Proof.
-  induction letters as [|c ls IH]; intros [|a axs] m m' H; cbn in H; try discriminate H.
-  - inversion H; subst. split; [apply extends_refl|]. split; [reflexivity|]. intros [|i] c a Hc; discriminate Hc.
-  - destruct (lookup c m) as [a'|] eqn:L.
-    + destruct (axis_eqb a a') eqn:E; [|discriminate H]. apply axis_eqb_eq in E. subst a'.
-      destruct (IH _ _ _ H) as [He [Hl Hn]]. split; [exact He|]. split; [cbn; f_equal; exact Hl|].
-      intros [|i] c0 a0 Hc Ha; cbn in Hc, Ha; [inversion Hc; inversion Ha; subst; apply He; exact L|eapply Hn; eassumption].
-    + destruct (IH _ _ _ H) as [He [Hl Hn]]. split; [eapply extends_trans; [exact He|apply extends_cons; exact L]|]. split; [cbn; f_equal; exact Hl|].
-      intros [|i] c0 a0 Hc Ha; cbn in Hc, Ha; [inversion Hc; inversion Ha; subst; apply He; cbn; rewrite Ascii.eqb_refl; reflexivity|eapply Hn; eassumption].
-Qed.
-
-Lemma bind_all_sound ins : forall ops m m', bind_all ins ops m = Some m' ->
-  extends m' m /\
-  (forall k letters axes, nth_error ins k = Some letters -> nth_error ops k = Some axes ->
-     length letters = length axes /\ forall i c a, nth_error letters i = Some c -> nth_error axes i = Some a -> lookup c m' = Some a).
-Proof.
-  induction ins as [|l ins IH]; intros [|o ops] m m' H; cbn in H; try discriminate H.
-  - inversion H; subst. split; [apply extends_refl|]. intros [|k] ? ? Hk; discriminate Hk.
-  - destruct (bind_operand l o m) as [m1|] eqn:B; [|discriminate H].
-    destruct (bind_operand_sound _ _ _ _ B) as [E1 [L1 N1]]. destruct (IH _ _ _ H) as [E2 N2].
-    split; [eapply extends_trans; eassumption|].
-    intros [|k] letters axes Hl Ha; cbn in Hl, Ha.
-    + inversion Hl; inversion Ha; subst. split; [exact L1|]. intros i c a Hc Hx. apply E2. eapply N1; eassumption.
-    + eapply N2; eassumption.
-Qed.
-
-(* if a contraction types, there is ONE assignment of meanings to letters such that every axis of every operand carries the meaning of its
-   letter: two axes summed (or matched) by a shared letter always mean the same thing, whatever the sizes *)
-Theorem typed_contraction_sound ins out ops res : type_einsum ins out ops = Some res ->
-  exists m : binding,
-    (forall k letters axes, nth_error ins k = Some letters -> nth_error ops k = Some axes ->
-       length letters = length axes /\ forall i c a, nth_error letters i = Some c -> nth_error axes i = Some a -> lookup c m = Some a) /\
-    out_axes out m = Some res.
-Proof.
-  unfold type_einsum. destruct (bind_all ins ops []) as [m|] eqn:B; [|discriminate]. intros H.
-  exists m. split; [apply (bind_all_sound _ _ _ _ B)|exact H].
-Qed.
-
 Lemma all_sites_typed : forallb site_typed contraction_sites = true.
 Proof. vm_compute. reflexivity. Qed.
 Lemma sites_nonempty : (8 <=? length contraction_sites)%nat = true.
